@@ -189,7 +189,7 @@ class DiscreteFactorTable(Distribution):
                 assert tuple(si.keys()) == s_keys
         if isinstance(other.support[0], (dict, frozendict)):
             o_keys = tuple(other.support[0].keys())
-            for oi in self.support:
+            for oi in other.support:
                 assert tuple(oi.keys()) == o_keys
 
         #first get inner join rows, tracking ones that don't match
